@@ -1,5 +1,5 @@
-import PprofVerif.Lemmas.LegacyDispatch
-import PprofVerif.Model.Legacy
+import PprofVerif.Lemmas.LegacyPb
+import PprofVerif.Model.LegacyPb
 /-!
 # C14 — legacy text and binary profiles convert with the documented values
 
@@ -70,6 +70,13 @@ the header). -/
 theorem parseCpu_printCpu (d : CpuDoc) (h : d.wf = true) : parseCPU (printCpu d) = .ok (expectedCpu d) :=
   parseCPU_printCpu d h
 
+/-- Binary Java CPU profiles (third header word 1), all four word layouts: values
+`[count, count·period·1000]`, addresses as in the file (no adjustment, no signal-frame or
+duplicate-leaf removal), the trailer's function/file/line for the addresses it names, all
+addresses cleared, CPU frame filters. -/
+theorem parseJavaCpu_printJavaCpu (d : JavaCpuDoc) (h : d.wf = true) :
+    parseCPU (printJavaCpu d) = .ok (expectedJavaCpu d) := parseCPU_printJavaCpu d h
+
 /-- Java heapz / contentionz profiles. -/
 theorem parseJava_printJava (scale : ScaleFn) (d : JavaDoc) (h : d.wf = true) :
     parseJavaProfile scale (printJava d) = .ok (expectedJava scale d) := Legacy.parseJava_printJava scale d h
@@ -77,25 +84,110 @@ theorem parseJava_printJava (scale : ScaleFn) (d : JavaDoc) (h : d.wf = true) :
 /-! ### `ParseData` level (protobuf decoder first, then the chain of legacy parsers)
 
 Full statement of the property for a format X:
-`parseData pb scale cyc (printX d) = ok (expectedX d)` for the real protobuf decoder `pb`.
-It is FALSE on the pinned tree for binary CPU documents whose bytes also decode as a protobuf
-message (known finding `C14/cpu/taken-for-protobuf`, witness in corpus/C14: big-endian 64-bit,
-period 100, one sample at 0x3200): the decoder skips field number 0 instead of rejecting it.
-Proved: the statement under the hypothesis that the protobuf decoder does not accept the
-document, for binary CPU and heap documents (for the other formats the dispatch — every earlier
-parser answers "unrecognized" — is tied by the correspondence check only). -/
+`parseDataReal scale cyc (printX d) = ok (expectedX d)` where `parseDataReal` is `ParseData` with the
+codec model `Codec.parseUncompressed` as the protobuf decoder.
+
+* It is FALSE on the pinned tree for binary CPU documents whose bytes also decode as a protobuf
+  message (known finding `C14/cpu/taken-for-protobuf`): `parseData_cpu_shadowed_by_protobuf` is the
+  model-level witness (the corpus input, evaluated by the kernel).
+* It is PROVED without any hypothesis for: little-endian binary CPU profiles of both flavours
+  (the header `0 3 …` reads as field 0 with wire type 3, which the decoder rejects), heap,
+  contention/mutex and Java heapz/contentionz documents (their first bytes `hea…`/`---…` read as
+  a field with the wrong wire type).
+* For every format it is proved for an ARBITRARY decoder `pb` under the hypothesis that `pb`
+  rejects the document with an error other than errNoData/errConcatProfile (`…_partial`); this is
+  the form that covers big-endian CPU, count and threadz documents, whose first bytes do not
+  determine what the decoder does.
+
+In each case the statement includes that every parser tried EARLIER in `parseLegacy` answers
+`errUnrecognized` (not another error) on the printed document. -/
 
 /-- binary CPU documents through the whole dispatch, unless the protobuf decoder takes them -/
 theorem parseData_printCpu_partial (pb : Str → Outcome Profile) (scale : ScaleFn) (cyc : CycFn) (d : CpuDoc)
-    (h : d.wf = true) (hpb : ∀ p, pb (printCpu d) ≠ .ok p) :
+    (h : d.wf = true) (hpb : PbRejects (pb (printCpu d))) :
     parseData pb scale cyc (printCpu d) = .ok (expectedCpu d) := by
-  rw [parseData_of_pb_fails pb scale cyc _ hpb]; exact parseLegacy_printCpu scale cyc d h
+  rw [parseData_of_pb_rejects pb scale cyc _ hpb]; exact parseLegacy_printCpu scale cyc d h
+
+/-- binary Java CPU documents through the whole dispatch -/
+theorem parseData_printJavaCpu_partial (pb : Str → Outcome Profile) (scale : ScaleFn) (cyc : CycFn) (d : JavaCpuDoc)
+    (h : d.wf = true) (hpb : PbRejects (pb (printJavaCpu d))) :
+    parseData pb scale cyc (printJavaCpu d) = .ok (expectedJavaCpu d) := by
+  rw [parseData_of_pb_rejects pb scale cyc _ hpb]; exact parseLegacy_printJavaCpu scale cyc d h
 
 /-- heap documents through the whole dispatch (`parseCPU` answers "unrecognized" on text) -/
 theorem parseData_printHeap_partial (pb : Str → Outcome Profile) (scale : ScaleFn) (cyc : CycFn) (d : HeapDoc)
-    (h : d.wf = true) (hpb : ∀ p, pb (printHeap d) ≠ .ok p) :
+    (h : d.wf = true) (hpb : PbRejects (pb (printHeap d))) :
     parseData pb scale cyc (printHeap d) = .ok (expectedHeap scale d) := by
-  rw [parseData_of_pb_fails pb scale cyc _ hpb]; exact parseLegacy_printHeap scale cyc d h
+  rw [parseData_of_pb_rejects pb scale cyc _ hpb]; exact parseLegacy_printHeap scale cyc d h
+
+/-- count documents: `parseCPU` and `parseHeap` answer "unrecognized" (the header
+`<name> profile: total <n>` cannot be read as a `heap profile:` header whatever the name) -/
+theorem parseData_printCount_partial (pb : Str → Outcome Profile) (scale : ScaleFn) (cyc : CycFn) (d : CountDoc)
+    (h : d.wf = true) (hpb : PbRejects (pb (printCount d))) :
+    parseData pb scale cyc (printCount d) = .ok (expectedCount d) := by
+  rw [parseData_of_pb_rejects pb scale cyc _ hpb]; exact parseLegacy_printCount scale cyc d h
+
+/-- threadz documents: `parseCPU`, `parseHeap`, `parseGoCount` answer "unrecognized".  `chainOK`: a
+document that starts directly with a thread header must not carry a heap-profile header in its
+(free-text) thread name — otherwise `parseHeap` claims it; every other first line is covered. -/
+theorem parseData_printThread_partial (pb : Str → Outcome Profile) (scale : ScaleFn) (cyc : CycFn) (d : ThreadDoc)
+    (h : d.wf = true) (hc : d.chainOK = true) (hpb : PbRejects (pb (printThread d))) :
+    parseData pb scale cyc (printThread d) = .ok (expectedThread d) := by
+  rw [parseData_of_pb_rejects pb scale cyc _ hpb]; exact parseLegacy_printThread scale cyc d h hc
+
+/-- contention / mutex documents: `parseCPU`, `parseHeap`, `parseGoCount`, `parseThread` answer
+"unrecognized" -/
+theorem parseData_printContention_partial (pb : Str → Outcome Profile) (scale : ScaleFn) (cyc : CycFn) (d : ContDoc)
+    (h : d.wf = true) (hpb : PbRejects (pb (printContention d))) :
+    parseData pb scale cyc (printContention d) = .ok (expectedContention cyc d) := by
+  rw [parseData_of_pb_rejects pb scale cyc _ hpb]; exact parseLegacy_printContention scale cyc d h
+
+/-- Java heapz / contentionz documents: all five earlier parsers answer "unrecognized"
+(`parseContention` accepts the `--- contentionz 1 ---` line and then meets `format` / `resolution`) -/
+theorem parseData_printJava_partial (pb : Str → Outcome Profile) (scale : ScaleFn) (cyc : CycFn) (d : JavaDoc)
+    (h : d.wf = true) (hpb : PbRejects (pb (printJava d))) :
+    parseData pb scale cyc (printJava d) = .ok (expectedJava scale d) := by
+  rw [parseData_of_pb_rejects pb scale cyc _ hpb]; exact parseLegacy_printJava scale cyc d h
+
+/-! with the real decoder model: no hypothesis on the decoder -/
+
+/-- little-endian binary CPU profiles (either word size): the real decoder rejects them -/
+theorem parseData_printCpu_littleEndian (scale : ScaleFn) (cyc : CycFn) (d : CpuDoc) (h : d.wf = true) (hle : d.big = false) :
+    parseDataReal scale cyc (printCpu d) = .ok (expectedCpu d) :=
+  parseData_printCpu_partial _ scale cyc d h (pbRejects_printCpu_littleEndian d hle)
+
+/-- little-endian binary Java CPU profiles -/
+theorem parseData_printJavaCpu_littleEndian (scale : ScaleFn) (cyc : CycFn) (d : JavaCpuDoc) (h : d.wf = true)
+    (hle : d.big = false) : parseDataReal scale cyc (printJavaCpu d) = .ok (expectedJavaCpu d) :=
+  parseData_printJavaCpu_partial _ scale cyc d h (pbRejects_printJavaCpu_littleEndian d hle)
+
+/-- every heap document -/
+theorem parseData_printHeap (scale : ScaleFn) (cyc : CycFn) (d : HeapDoc) (h : d.wf = true) :
+    parseDataReal scale cyc (printHeap d) = .ok (expectedHeap scale d) :=
+  parseData_printHeap_partial _ scale cyc d h (pbRejects_printHeap d)
+
+/-- every contention / mutex document -/
+theorem parseData_printContention (scale : ScaleFn) (cyc : CycFn) (d : ContDoc) (h : d.wf = true) :
+    parseDataReal scale cyc (printContention d) = .ok (expectedContention cyc d) :=
+  parseData_printContention_partial _ scale cyc d h (pbRejects_printContention d)
+
+/-- every Java heapz / contentionz document -/
+theorem parseData_printJava (scale : ScaleFn) (cyc : CycFn) (d : JavaDoc) (h : d.wf = true) :
+    parseDataReal scale cyc (printJava d) = .ok (expectedJava scale d) :=
+  parseData_printJava_partial _ scale cyc d h (pbRejects_printJava d)
+
+/-- Witness of the known finding `C14/cpu/taken-for-protobuf`: the full statement fails on the
+model.  The corpus document is well-formed, the real decoder ACCEPTS its bytes (every byte pair
+reads as a field: tag 0 is skipped, `32 00` is an empty string-table entry), so `ParseData` returns
+the empty protobuf profile, which is not the documented conversion. -/
+theorem parseData_cpu_shadowed_by_protobuf (scale : ScaleFn) (cyc : CycFn) :
+    shadowedCpuDoc.wf = true ∧
+    parseDataReal scale cyc (printCpu shadowedCpuDoc) = .ok emptyPbProfile ∧
+    parseDataReal scale cyc (printCpu shadowedCpuDoc) ≠ .ok (expectedCpu shadowedCpuDoc) := by
+  refine ⟨shadowed_wf, parseDataReal_shadowed scale cyc, ?_⟩
+  rw [parseDataReal_shadowed]
+  intro e
+  exact shadowed_ne (Outcome.ok.inj e)
 
 /-! ### the rules the property names -/
 
